@@ -4,6 +4,7 @@ import (
 	"fmt"
 	"go/ast"
 	"go/token"
+	"go/types"
 	"sort"
 	"strings"
 
@@ -22,6 +23,7 @@ func propC17(c *Ctx) propInfo {
 	c.errflow(excC17E2, "ton")
 	c.radixDiscipline("E11.radix", "ton", "liteclient", "utils")
 	c.addressBufferSizes()
+	c.bits256Lengths()
 	c.wireSizes("liteclient") // the ADNL base32 form: checksum buffer of exactly two bytes
 	const R = "E8.mustcheck"
 	if f := c.mustFn(R, "ton", "AccountIDFromBase64Url"); f != nil {
@@ -475,5 +477,52 @@ func (c *Ctx) addressBufferSizes() {
 			sz := madeSizes(f)
 			c.check(len(sz) == 1 && sz[0] == 36, R, n+" builds exactly 36 bytes", f.Pos(), "make([]byte, 36)", fmt.Sprintf("%s builds its output in buffer(s) of %v bytes; the form is 36 bytes (tag/workchain, 32-byte hash, checksum or 4-byte workchain + hash) and everything in the buffer is emitted", n, sz))
 		}
+	}
+}
+
+// bits256Lengths: every way of filling a Bits256 from text or bytes succeeds only for exactly 32
+// bytes (a 256-bit value); a 33-byte input must not be accepted and cut, a 32-byte one not refused.
+func (c *Ctx) bits256Lengths() {
+	const R = "E8.bounds"
+	p := c.pkg("ton")
+	if p == nil {
+		return
+	}
+	obj, ok := p.Types.Scope().Lookup("Bits256").(*types.TypeName)
+	if !ok {
+		return
+	}
+	named, ok := obj.Type().(*types.Named)
+	if !ok {
+		return
+	}
+	n := 0
+	for i := 0; i < named.NumMethods(); i++ {
+		f := c.Prog.FuncValue(named.Method(i))
+		if f == nil || len(f.Blocks) == 0 {
+			continue
+		}
+		// only the fillers: pointer receiver, an error result, and a length comparison of their own
+		if f.Signature.Results().Len() != 1 || !isErrorType(f.Signature.Results().At(0).Type()) {
+			continue
+		}
+		has := false
+		for _, b := range f.Blocks {
+			if iff := lastIf(b); iff != nil {
+				if bo, ok := iff.Cond.(*ssa.BinOp); ok && lenOf(nil)(bo.X) {
+					if _, ok := constInt(bo.Y); ok {
+						has = true
+					}
+				}
+			}
+		}
+		if !has {
+			continue
+		}
+		n++
+		c.boundsAtSuccess(R, f, 0, "len(decoded)", lenOf(nil), 32, 32)
+	}
+	if n < 3 {
+		c.bad(R, "Bits256 fillers with a length test found", token.NoPos, fmt.Sprintf("only %d methods of ton.Bits256 compare a decoded length with a constant; FromHex/FromBase64/FromBase64URL/FromBytes were confirmed", n))
 	}
 }
